@@ -21,14 +21,26 @@
      C05_walk_generic                 the generic theorem (any path_ops whose operations are strict and
                                       consume a measure), which also discharges the visitor-side panic
                                       sites 9002 / 9003 / 9004 / 9005 of SerdeShape.v for every path
+   TEXT, stream path (TextDeStream.sde / swalk, generic in the token source; instance: the reader's
+   token list [ltoks] that C07 proves independent of buffer size and read schedule):
+     C05_tde_stream_never_crashes     deser_stream with its own fuel TextDeStream.stream_fuel: every token
+                                      list (any error / clean end marker), every shape (ShProp included),
+                                      every float parser and float casts, every decoder returning bytes < 256
+     C05_tde_stream_generic           the same for ANY token source whose next / skip_container /
+                                      read_expect_equals are strict and consume tokens, fuel
+                                      2 * tokens + shape_size + 1
    NOT proved (named gaps):
+     * text TAPE path (TextDeTape.de / twalk on parser-produced tapes): not attempted here; the panic
+       sites are SITE_TOK 9100 (`tokens[i]`), the harness `expect` 9101 and finish 9001/9002; discharging
+       9100 needs the object grammar of C17 (key [op] value) on every index the DOM readers compute.
      * tape path (deser_tape): needs, beyond C06_bin tape_wf, two facts about parse_opt's output that no
        existing theorem provides: (i) the top level is a sequence of key-value PAIRS (the release-only
        `tokens[value_ind]` site of BinaryMap::next_key_seed, Panic 9206 in the model, is reached when a
        key is the last token of the tape), (ii) payloads are real (i32 range, bytes < 256).
      * cfg_ok for the two decoders of Encoding.v: totality is C12 (C12_w1252_spec, utf8_total);
        "the output bytes are < 256" is not stated anywhere (needed only by the Date visitors). *)
-From JV.proofs Require Import SwarLanes NoCrashWalk NoCrashBinDe BinDeSpecProofs.
+From JV.proofs Require Import SwarLanes NoCrashWalk NoCrashBinDe BinDeSpecProofs NoCrashTextDe.
+From JV Require Utf8 TextTok TextReader TextDeCommon TextDeStream.
 From JV Require Import Bytes Tables BinPrim BufWin BinLexer BinReader SerdeShape BinDeCommon BinDeOndemand BinDeReader.
 Open Scope nat_scope.
 
@@ -94,3 +106,35 @@ Proof.
   split; [apply C05_bde_prop_is_model_artefact|]. split; [repeat constructor|]. split; [reflexivity|].
   repeat split; vm_compute; reflexivity.
 Qed.
+
+(* ------------------------------------------------------------------ text, stream path *)
+Theorem C05_tde_stream_never_crashes : forall decode parse_f64 fo sh (r : TextDeStream.ltoks),
+  (forall raw, wfl (Utf8.cow_bytes (decode raw))) ->
+  no_crash (TextDeStream.deser_stream decode parse_f64 fo sh r).
+Proof. intros. apply gd2_true_elim. apply deser_stream_ok. assumption. Qed.
+Print Assumptions C05_tde_stream_never_crashes.
+
+Theorem C05_tde_stream_generic : ltac:(let t := type of sde_root_ok in exact t).
+Proof. exact sde_root_ok. Qed.
+Print Assumptions C05_tde_stream_generic.
+
+(* non-vacuity: `a = { 1 2 } b >= c {} }`-like token lists incl. a ghost object, an operator, a reader
+   error at the end; Property<any> target *)
+Definition C05_dec (s : bytes) : Utf8.cow := Utf8.Borrowed (filter (fun b => (b <? 256)%N) s).
+Definition C05_fo : fops := mkfops (fun x => x) (fun x => x) (fun _ => 0%N) (fun _ => 0%N).
+Definition C05_toks1 : TextDeStream.ltoks :=
+  ([TextReader.RUnq [97]; TextReader.ROp TextTok.Equal; TextReader.ROpen; TextReader.RUnq [49]; TextReader.RUnq [50];
+    TextReader.RClose; TextReader.ROpen; TextReader.RClose]%N, None).
+Definition C05_toks2 : TextDeStream.ltoks :=
+  ([TextReader.RUnq [97]; TextReader.ROp TextTok.GreaterThanEqual; TextReader.RUnq [49]]%N, Some 101%N).
+Example C05_tde_nonvacuous_hyp : forall raw, wfl (Utf8.cow_bytes (C05_dec raw)).
+Proof.
+  intros raw. cbn. unfold wfl. apply Forall_forall. intros x Hx. apply filter_In in Hx as [_ Hx]. apply N.ltb_lt. exact Hx.
+Qed.
+Example C05_tde_nonvacuous_1 :
+  TextDeStream.deser_stream C05_dec (fun _ => Err 1%N) C05_fo (ShMap ShAny) C05_toks1
+  = Ok (DMap [([97]%N, DSeq [DStr [49]%N; DStr [50]%N])]).
+Proof. vm_compute. reflexivity. Qed.
+Example C05_tde_nonvacuous_2 :
+  TextDeStream.deser_stream C05_dec (fun _ => Err 1%N) C05_fo (ShMap (ShProp ShAny)) C05_toks2 = Err 101%N.
+Proof. vm_compute. reflexivity. Qed.
